@@ -51,8 +51,8 @@ PROPS = {
     "C10": dict(jobs=lambda j: j.startswith("update:") or j == "avg", obl=lambda o: o["kind"] in ("post", "pre", "libpre") and "cover" not in o["name"],
                 bounded="c10", level="proof", design="4 C12/C10",
                 technique="every contract is stated on physical (base-unit) values and proved with the unit conversion factor of every input left symbolic (> 0): unit independence by construction; bare-magnitude reads fail the proof unless preceded by .to(<literal unit>)"),
-    "C12": dict(jobs=upd("update_instances_energy", "update_instances_fabrication_footprint", "update_energy_footprint", "update_devices_",
-                         "Network", "update_hour_by_hour", "update_nb_usage_journeys"), obl=ALL_OBL, bounded="c12", level="proof", design="4 C12/C10",
+    "C12": dict(jobs=lambda j: j.startswith("lemma:C12") or upd("update_instances_energy", "update_instances_fabrication_footprint", "update_energy_footprint", "update_devices_",
+                         "Network", "update_hour_by_hour", "update_nb_usage_journeys")(j), obl=ALL_OBL, bounded="c12", level="proof", design="4 C12/C10",
                 technique="homogeneity lemmas over the functional specifications the update rules are proved equal to (z3), plus the proofs of those equalities"),
     "C18": dict(jobs=lambda j: j.startswith("update:"), obl=kinds("frame", "order"), bounded="c18", level="other", design="4 C18",
                 technique="frame contracts of every update rule (writes exactly its attribute, leaves every model value physically unchanged) and read-set order obligations against calculated_attributes / CANONICAL_COMPUTATION_ORDER read from the real classes; second-pass twin on real systems"),
@@ -61,19 +61,19 @@ PROPS = {
                 technique="every loop over a set-derived collection is proved against a commutative fold (order independence in real arithmetic); permutation / hash-seed twin on real systems"),
 }
 
-PROPS["C01"] = dict(jobs=None, obl=None, bounded="c01", level="other", design="4 C01/C15",
+PROPS["C01"] = dict(jobs=lambda j: j.startswith("effects:"), obl=lambda o: "C01" in o["name"] or "effect profile" in o["name"], bounded="c01", level="other", design="4 C01/C15",
                     technique="bounded stand-in (whole-history property, no per-function contract states it): live system after every single edit and sampled/all pairs of edits vs a system built from the edited specification, on 7 sharing topologies; local clauses (frames, read order, chain contracts) are proved under C18/C08")
 
 PROPS["C16"] = dict(jobs=None, obl=None, bounded="c16", level="other", design="4 C16",
                     technique="bounded stand-in: histories of 1-3 link/list operations (full alphabet, present/absent/duplicate/no-op arguments) on 4 topologies; after every operation forward links vs every reverse look-up, list content vs python mirror, deletion guard, system exclusivity")
 
-PROPS["C14"] = dict(jobs=None, obl=None, bounded="c14", level="other", design="4 C14",
+PROPS["C14"] = dict(jobs=lambda j: j.startswith("effects:"), obl=lambda o: "C14" in o["name"] or "effect profile" in o["name"], bounded="c14", level="other", design="4 C14",
                     technique="bounded stand-in, exhaustive over its finite domain: every parameter of every public class x every applicable kind of invalid value x {construction, assignment in a live system}; exception required and whole-model snapshot (values, identities, links) unchanged after a refused assignment")
 
 PROPS["C15"] = dict(jobs=None, obl=None, bounded="c15", level="other", design="4 C01/C15",
                     technique="bounded stand-in: 7 failure points x re-assignment style x one/two failures x follow-up edits; model after recovery vs before the failure (values, inputs, graph links) and vs a fresh build after a further edit")
 
-PROPS["C05"] = dict(jobs=None, obl=None, bounded="c05", level="other", design="4 C05/C06",
+PROPS["C05"] = dict(jobs=lambda j: j.startswith("effects:"), obl=lambda o: "C05" in o["name"] or "effect profile" in o["name"], bounded="c05", level="other", design="4 C05/C06",
                     technique="bounded stand-in: dated simulations (numeric / link / list / mixed / invalid / failing change lists x 6 dates x toggle sequences) on real systems; identities, values, links, reverse links and graph edge sets compared with the baseline")
 PROPS["C06"] = dict(jobs=None, obl=None, bounded="c06", level="other", design="4 C05/C06",
                     technique="bounded stand-in: first-hour simulation vs really applying the changes on a twin system; no simulated hour before the date; twins paired both ways; bad dates refused")
